@@ -247,6 +247,8 @@ func main() {
 		}
 		b, _ := json.MarshalIndent(st, "", " ")
 		must(os.WriteFile(filepath.Join(*out, "stats.json"), b, 0o644))
+	case "c19child":
+		c19Child(os.Args[2:])
 	case "c08child":
 		c08Child(os.Args[2:])
 	case "exec":
